@@ -82,7 +82,7 @@ class C05(Prop):
     imports = "From Tola Require Import Py.Base Model.Fragment Model.Fasta Model.AgpTpf Model.AsmFormat Corr.AgpTpf."
     show_fn = "show"
     design_ref = "6/C05"
-    required_theorems = ['C05_parse_format_agp', 'C05_format_parse_agp', 'C05_parse_format_tpf', 'C05_agp_tpf_agp', 'C05_agp_rows_eq_lines', 'C05_tpf_rows_eq_lines', 'C05_gap_type_tables', 'C05_wf_satisfiable', 'C05_asm_format_identity', 'C05_asm_format_concatenates', 'C05_qc_flag_does_not_change_output']
+    required_theorems = ['C05_parse_format_agp', 'C05_format_parse_agp', 'C05_parse_format_tpf', 'C05_agp_tpf_agp', 'C05_agp_rows_eq_lines', 'C05_tpf_rows_eq_lines', 'C05_gap_type_tables', 'C05_wf_satisfiable', 'C05_asm_format_identity', 'C05_asm_format_concatenates', 'C05_qc_flag_does_not_change_output', 'C05_asm_format_agp_tpf_agp']
 
     def rule(self):
         return (
